@@ -44,6 +44,9 @@ enum Step {
     Import { ops: Vec<WireOp> },
     Recv,
     Ack { which: usize },
+    /// Two acknowledgements in flight at once (two application workers), preferably of operations
+    /// of different authors.
+    AckPair { a: usize, b: usize },
 }
 
 #[derive(Clone, Debug, Serialize, Deserialize)]
@@ -176,6 +179,7 @@ pub fn child(args: &Args) {
                     }
                     log(format!("recv {i} {consumed}"));
                 }
+                Step::AckPair { .. } => {}
                 Step::Ack { which } => {
                     let target = {
                         let r = received.lock().unwrap();
@@ -194,6 +198,36 @@ pub fn child(args: &Args) {
                     } else {
                         log(format!("noack {i}"));
                     }
+                }
+            }
+            if let Step::AckPair { a, b } = step {
+                let pair = {
+                    let r = received.lock().unwrap();
+                    if r.len() < 2 {
+                        None
+                    } else {
+                        let ia = a % r.len();
+                        // Prefer a partner from another author: the cursor is one row per topic.
+                        let author_a = r[ia].processed().header().verifying_key;
+                        let ib = (0..r.len())
+                            .map(|k| (b + k) % r.len())
+                            .find(|k| *k != ia && r[*k].processed().header().verifying_key != author_a)
+                            .unwrap_or((ia + 1) % r.len());
+                        Some((r[ia].clone(), r[ib].clone()))
+                    }
+                };
+                if let Some((x, y)) = pair {
+                    let hx = (x.processed().header().verifying_key, x.processed().header().seq_num);
+                    let hy = (y.processed().header().verifying_key, y.processed().header().seq_num);
+                    let (rx, ry) = tokio::join!(x.ack(), y.ack());
+                    if rx.is_ok() {
+                        log(format!("ack {i} {} {}", hx.0.to_hex(), hx.1));
+                    }
+                    if ry.is_ok() {
+                        log(format!("ack {i} {} {}", hy.0.to_hex(), hy.1));
+                    }
+                } else {
+                    log(format!("noack {i}"));
                 }
             }
             if crash_after == Some(i) {
@@ -297,6 +331,7 @@ fn gen_plan(rng: &mut Rng) -> Plan {
                 Step::Import { ops }
             }
             7..=8 => Step::Recv,
+            9 | 10 => Step::AckPair { a: rng.usize_below(64), b: rng.usize_below(64) },
             _ => Step::Ack { which: rng.usize_below(64) },
         };
         steps.push(s);
@@ -499,7 +534,7 @@ pub fn run(args: &Args) {
     let mut rep = Report::new(
         args,
         "histories of 6..14 steps (publish / prune with and without body / import of 1..3 foreign \
-         operations, some prune-flagged or body-less / receive / ack of a received operation), explicit \
+         operations, some prune-flagged or body-less / receive / ack of a received operation / two concurrent acks), explicit \
          (70%) or automatic ack policy, file database; crash = abort() after step k for every k of each \
          history (fault enumeration), abort() inside a step at the n-th pipeline wait (hook), plus SIGKILL at a random offset; then restart + stream_from(Frontier). \
          Non-trivial = the database found after the crash holds >= 1 stored, unacknowledged operation with \
